@@ -89,8 +89,9 @@ def FilePost (cfg : Cfg) (dst : Map DNode) (e : SEntry) (m : FileMeta) (res : Op
     (∀ o, dst.get? e.rel = some (.file o) → d.ino = o.ino)
 
 structure EntryPost (cfg : Cfg) (scan : List SEntry) (dst : Map DNode) (e : SEntry) (res : Option DNode) : Prop where
-  dir_new : e.kind = .dir → e.rel ≠ [] → dst.get? e.rel = none → res = some .dir
-  dir_old : e.kind = .dir → dst.get? e.rel ≠ none → res = dst.get? e.rel
+  dir : e.kind = .dir → e.rel ≠ [] → res = some .dir
+  dir_old : e.kind = .dir → dst.get? e.rel = some .dir → res = some .dir
+  dir_pre : e.kind = .dir → e.rel ≠ [] → dst.get? e.rel = none ∨ dst.get? e.rel = some .dir
   file : ∀ m n, e.kind = .file m n → FilePost cfg dst e m res
   link_preserve : ∀ text tgt, e.kind = .symlink text tgt → cfg.links = .preserve → res = some (.symlink text)
   link_follow : ∀ text m, e.kind = .symlink text (.file m) → cfg.links = .follow → FilePost cfg dst e m res
@@ -136,20 +137,26 @@ theorem filePost_of_taskPost {cfg : Cfg} {scan : List SEntry} {dst : Map DNode} 
 theorem entryPost_of_taskPost {cfg : Cfg} {scan : List SEntry} {dst : Map DNode} {e : SEntry} {res : Option DNode}
     (tp : TaskPost cfg dst (plan cfg scan dst) (planEntry cfg dst e) res) :
     EntryPost cfg scan dst e res := by
-  refine ⟨fun hk hne hnone => ?_, fun hk hsome => ?_, fun m n hk => ?_, fun text tgt hk hl => ?_,
+  have dirSkip : e.kind = .dir → dst.get? e.rel = some .dir → res = some .dir := by
+    intro hk hd
+    have hpe : planEntry cfg dst e = ⟨.skip, e.rel, .dir⟩ := by
+      unfold planEntry; simp [hk, hd]
+    rw [(unchanged_of_taskPost tp (Or.inl (by rw [hpe]))).of_present (by rw [hd]; simp), hd]
+  have dirCreate : e.kind = .dir → dst.get? e.rel ≠ some .dir → planEntry cfg dst e = ⟨.create, e.rel, .dir⟩ := by
+    intro hk hd
+    unfold planEntry
+    simp only [hk]
+  refine ⟨fun hk hne => ?_, dirSkip, fun hk hne => ?_, fun m n hk => ?_, fun text tgt hk hl => ?_,
     fun text m hk hl => ?_, fun text tgt hk hl hnf => ?_, fun text tgt hk hl => ?_⟩
-  · have hpe : planEntry cfg dst e = ⟨.create, e.rel, .dir⟩ := by
-      unfold planEntry; simp [hk, hnone]
-    have := tp.dir (by rw [hpe]; simp) (by rw [hpe]) (by rw [hpe]; exact hne)
-    exact this
-  · have hpe : planEntry cfg dst e = ⟨.skip, e.rel, .dir⟩ := by
-      unfold planEntry
-      have : (dst.get? e.rel).isSome = true := by
-        cases h : dst.get? e.rel with
-        | none => exact absurd h hsome
-        | some v => rfl
-      simp [hk, this]
-    exact (unchanged_of_taskPost tp (Or.inl (by rw [hpe]))).of_present hsome
+  · by_cases hd : dst.get? e.rel = some .dir
+    · exact dirSkip hk hd
+    · have hpe := dirCreate hk hd
+      exact tp.dir (by rw [hpe]; simp) (by rw [hpe]) (by rw [hpe]; exact hne)
+  · by_cases hd : dst.get? e.rel = some .dir
+    · exact Or.inr hd
+    · have hpe := dirCreate hk hd
+      have := tp.dir_pre (by rw [hpe]; simp) (by rw [hpe]) (by rw [hpe]; exact hne)
+      rw [planEntry_rel] at this; exact this
   · exact filePost_of_taskPost (n := n) tp (by unfold planEntry; simp [hk])
   · cases hg : dst.get? e.rel with
     | none =>
